@@ -65,3 +65,125 @@ RECIPES = [
      "            nstrings = len(ind)\n            nvalues = ind[:, 1].sum()\n            nwords = 2 * (nstrings + nvalues * multiplier)\n            reclen = 12 + 4 * nwords",
      "nwords / reclen re-associated, len() and .sum()"),
 ]
+
+# ---------------------------------------------------------------------------------------------------------------------- pass 2
+_ASC = "                L = (IS >> 16) - 1  # L\n                r = IS - ((L + 1) << 16) - 1  # irow-1\n                elems -= L + 1"
+_BIN = "                L = (IS >> 16) - 1  # L\n                r = IS - ((L + 1) << 16) - 1  # irow-1\n                nwords -= L + 1  # words left"
+_ROW = "r = IS - ((L + 1) << 16) - 1"
+_LEN = "L = (IS >> 16) - 1"
+_SPV = "                and np.allclose(vl[sortl], vu[sortu])\n"
+_DNS = "        return np.allclose(m.transpose(), m)\n"
+_SP0 = "            r, c, v = m[1:]\n            low = r > c  # values in lower triangle"
+_SENT = '        f.write(f"{cols + 1:8}{1:8}{1:8}\\n")\n        f.write(numform % 2**0.5)\n        f.write("\\n")\n\n    def _write_ascii_nonbigmat('
+_DCOL = "        while c < cols:\n            elems = int(line[e_slice])\n            r -= 1"
+_NBLOOP = ("            while elems > 0:\n                line = self._fileh.readline()\n                IS = int(line)\n                L = (IS >> 16) - 1  # L\n"
+           "                r = IS - ((L + 1) << 16) - 1  # irow-1\n                elems -= L + 1")
+_INIT = ("        self._rows4bigmat = 65536\n        # Tunable value ... if number of values exceeds this, read\n        # with numpy.fromfile instead of struct.unpack.\n"
+         "        self._rowsCutoff = 3000\n        self.save = self.write\n\n    def __del__(self):\n")
+_HDRSL = ("""            if line.endswith("|I16"):
+                line = line[:-4]
+                c_slice = slice(0, 16)
+                r_slice = slice(16, 32)
+                f_slice = slice(32, 40)
+                t_slice = slice(40, 48)
+                n_slice = slice(48, 56)
+            else:
+                c_slice = slice(0, 8)
+                r_slice = slice(8, 16)
+                f_slice = slice(16, 24)
+                t_slice = slice(24, 32)
+                n_slice = slice(32, 40)
+""")
+_DENSECOLS = ("""        if isinstance(matrix, np.ndarray):
+            for c in range(cols):
+                v = matrix[:, c]
+                if np.any(v):
+                    pv = np.nonzero(v)[0]
+                    s = pv[0]
+                    e = pv[-1]
+                    elems = (e - s + 1) * multiplier
+                    v = np.asarray(v[s : e + 1]).ravel()
+                    v.dtype = float
+                    _write_col_data(f, v, c, s, elems, perline, numform)
+""")
+
+RECIPES += [
+    # ---- break: the row / length field of the nonbigmat string header is 16 bits wide (siblings of round-3 seed H)
+    ("C04", "break", ["C04-R3"], F_, _BIN, _BIN.replace(_ROW, "r = (IS & 0x7FFF) - 1"), "binary nonbigmat reader: 15-bit mask for a 16-bit row field"),
+    ("C04", "break", ["C04-R3"], F_, _ASC, _ASC.replace(_ROW, "r = IS % 32768 - 1"), "ascii nonbigmat reader: row = IS mod 2^15"),
+    ("C04", "break", ["C04-R3"], F_, _BIN, _BIN.replace(_ROW, "r = (IS & 0x1FFFF) - 1"), "binary nonbigmat reader: 17-bit mask takes one bit of the length field"),
+    ("C04", "break", ["C04-R3"], F_, _ASC, _ASC.replace(_LEN, "L = (IS >> 15) - 1"), "ascii nonbigmat reader: length field shifted by 15 bits"),
+    ("C04", "break", ["C04-R3"], F_, _BIN, _BIN.replace(_LEN, "L = IS // 32768 - 1"), "binary nonbigmat reader: length = IS // 2^15"),
+    ("C04", "break", ["C04-R3"], F_, _BIN, _BIN.replace(_LEN, "L = (IS >> 17) - 1"), "binary nonbigmat reader: length field shifted by 17 bits"),
+    ("C04", "neutral", [], F_, _BIN, _BIN.replace(_ROW, "r = (IS & 0xFFFF) - 1"), "binary nonbigmat reader: 16-bit mask"),
+    ("C04", "neutral", [], F_, _ASC, _ASC.replace(_ROW, "r = IS % 65536 - 1"), "ascii nonbigmat reader: row = IS mod 2^16"),
+    # ---- break: ndarray and sparse input apply the same closeness rule to a pair of mirror entries (siblings of round-3 seed G)
+    ("C04", "break", ["C04-R8"], F_, _DNS, "        return abs(m.transpose() - m).max() <= 1e-8 + 1e-5 * abs(m).max()\n",
+     "ndarray arm of _is_symmetric: tolerance relative to the global maximum"),
+    ("C04", "break", ["C04-R8"], F_, _SPV, "                and np.allclose(vl[sortl], vu[sortu], rtol=1e-3)\n", "sparse arm of _is_symmetric: looser rtol than the ndarray arm"),
+    ("C04", "break", ["C04-R8"], F_, _SPV, "                and np.all(vl[sortl] == vu[sortu])\n", "sparse arm of _is_symmetric: exact comparison, ndarray arm with tolerance"),
+    ("C04", "break", ["C04-R8"], F_, _SPV, "                and abs(vl[sortl] - vu[sortu]).max() <= 1e-8 + 1e-5 * abs(v).max()\n",
+     "sparse arm of _is_symmetric: triplet values against the global maximum"),
+    ("C04", "break", ["C04-R8"], F_, _DNS, "        return np.allclose(m.transpose(), m, atol=1e-6)\n", "ndarray arm of _is_symmetric: other atol than the sparse arm"),
+    ("C04", "break", ["C04-R8"], F_, _DNS, "        return np.allclose(m, m)\n", "ndarray arm of _is_symmetric compares the matrix with itself"),
+    ("C04", "break", ["C04-R8"], F_, _DNS, "        return np.allclose(m.conj().T, m)\n", "ndarray arm of _is_symmetric tests for a Hermitian matrix"),
+    ("C04", "neutral", [], F_, _SPV, "                and np.allclose(vl[sortl], vu[sortu], rtol=1e-5, atol=1e-8)\n", "sparse arm of _is_symmetric: numpy's default tolerances spelled out"),
+    ("C04", "neutral", [], F_, _SPV, "                and np.isclose(vl[sortl], vu[sortu]).all()\n", "sparse arm of _is_symmetric: isclose(...).all()"),
+    ("C04", "neutral", [], F_, _SPV, "                and np.all(abs(vl[sortl] - vu[sortu]) <= 1e-8 + 1e-5 * abs(vu[sortu]))\n",
+     "sparse arm of _is_symmetric: the allclose inequality spelled out"),
+    ("C04", "neutral", [], F_, _DNS, "        return bool(np.all(np.isclose(np.transpose(m), m, 1e-5, 1e-8)))\n", "ndarray arm of _is_symmetric: isclose with positional tolerances"),
+    ("C04", "neutral", [], F_, _DNS, "        return np.allclose(m, m.T)\n", "ndarray arm of _is_symmetric: operands swapped, .T"),
+    ("C04", "neutral", [], F_, _SP0, "            if m[0].nnz < 64:\n                a = m[0].toarray()\n                return np.allclose(a.T, a)\n" + _SP0,
+     "sparse arm of _is_symmetric densifies small matrices (second way out with the same rule)"),
+    # ---- neutral: refactorings of kinds the stored patches do not have (written for pass 2)
+    ("C04", "neutral", [], F_, _SENT, _SENT.replace("f.write(", "emit(").replace('        emit(f"{cols', '        emit = f.write\n        emit(f"{cols', 1),
+     "bound method kept in a name: emit = f.write"),
+    ("C04", "neutral", [], F_, "            while elems > 0:\n                line = self._fileh.readline()\n                L = int(line[c_slice]) - 1  # L",
+     "            nextline = self._fileh.readline\n            while elems > 0:\n                line = nextline()\n                L = int(line[c_slice]) - 1  # L",
+     "bound method kept in a name: nextline = self._fileh.readline"),
+    ("C04", "neutral", [], F_, _DCOL, "        while True:\n            if c >= cols:\n                break\n            elems = int(line[e_slice])\n            r -= 1",
+     "dense ascii reader: loop test moved into a leading break guard"),
+    ("C04", "neutral", [], F_, _NBLOOP, _NBLOOP.replace("            while elems > 0:\n", "            while True:\n                if elems <= 0:\n                    break\n"),
+     "nonbigmat ascii reader: word-count test moved into a leading break guard"),
+    ("C04", "neutral", [], F_, _SENT,
+     '        tail = [f"{cols + 1:8}{1:8}{1:8}\\n"]\n        tail.append(numform % 2**0.5)\n        tail.append("\\n")\n        f.write("".join(tail))\n\n    def _write_ascii_nonbigmat(',
+     "sentinel lines collected in a list and written with join"),
+    ("C04", "neutral", [], F_, _SENT, '        f.writelines([f"{cols + 1:8}{1:8}{1:8}\\n", numform % 2**0.5, "\\n"])\n\n    def _write_ascii_nonbigmat(',
+     "sentinel lines written with writelines"),
+    ("C04", "neutral", [], F_,
+     "            L = r1 * 2 * multiplier\n            f.write(LrStruct.pack(L + 1, r0 + 1))\n            f.write(struct.pack(endian + (\"%dd\" % len(string)), *string))",
+     "            L = r1 * 2 * multiplier\n            buf = bytearray(LrStruct.pack(L + 1, r0 + 1))\n            buf += struct.pack(endian + (\"%dd\" % len(string)), *string)\n            f.write(bytes(buf))",
+     "binary bigmat string collected in a bytearray"),
+    ("C04", "neutral", [], F_, _INIT,
+     _INIT.replace("        self._rows4bigmat = 65536\n", "").replace("    def __del__(self):\n", "    @property\n    def _rows4bigmat(self):\n        return 1 << 16\n\n    def __del__(self):\n"),
+     "bigmat limit as a read-only property"),
+    ("C04", "neutral", [], F_, _HDRSL,
+     "            _hdr = {\n                8: (slice(0, 8), slice(8, 16), slice(16, 24), slice(24, 32), slice(32, 40)),\n"
+     "                16: (slice(0, 16), slice(16, 32), slice(32, 40), slice(40, 48), slice(48, 56)),\n            }\n"
+     "            wide = line.endswith(\"|I16\")\n            if wide:\n                line = line[:-4]\n"
+     "            c_slice, r_slice, f_slice, t_slice, n_slice = _hdr[16 if wide else 8]\n",
+     "ascii header slices looked up in a table keyed by the integer width"),
+    ("C04", "neutral", [], F_, _DENSECOLS,
+     "        def _columns(matrix, cols):\n            for c in range(cols):\n                v = matrix[:, c]\n                if np.any(v):\n                    yield c, v\n\n"
+     "        if isinstance(matrix, np.ndarray):\n            for c, v in _columns(matrix, cols):\n                pv = np.nonzero(v)[0]\n                s = pv[0]\n"
+     "                e = pv[-1]\n                elems = (e - s + 1) * multiplier\n                v = np.asarray(v[s : e + 1]).ravel()\n                v.dtype = float\n"
+     "                _write_col_data(f, v, c, s, elems, perline, numform)\n",
+     "dense ascii writer: non-empty columns come from a nested generator"),
+    ("C04", "neutral", [], F_, '            f.write(f"{c + 1:8}{s + 1:8}{elems:8}\\n")\n            neven = ((elems - 1) // perline) * perline',
+     '            print(f"{c + 1:8}{s + 1:8}{elems:8}", file=f)\n            neven = ((elems - 1) // perline) * perline', "dense ascii column header written with print(..., file=f)"),
+    ("C04", "neutral", [], F_, '            f.write(f"{L + 1:8}{r0 + 1:8}\\n")', '            print(f"{L + 1:8}", f"{r0 + 1:8}", sep="", file=f)',
+     "bigmat ascii string header written with print(a, b, sep='', file=f)"),
+    # ---- break: the same constructs carrying a defect
+    ("C04", "break", ["C04-R3"], F_, _SENT, _SENT.replace("f.write(", "emit(").replace('        emit(f"{cols + 1', '        emit = f.write\n        emit(f"{cols + 2', 1),
+     "aliased write: sentinel column number cols + 2"),
+    ("C04", "break", ["C04-R3"], F_, _SENT,
+     '        tail = [f"{cols + 1:8}{1:8}{2:8}\\n"]\n        tail.append(numform % 2**0.5)\n        tail.append("\\n")\n        f.write("".join(tail))\n\n    def _write_ascii_nonbigmat(',
+     "buffered sentinel announcing two values"),
+    ("C04", "break", ["C04-R3"], F_, _DCOL, "        while True:\n            if c > cols:\n                break\n            elems = int(line[e_slice])\n            r -= 1",
+     "dense ascii reader: break guard lets the sentinel column through"),
+    ("C04", "break", ["C04-R3"], F_, '            f.write(f"{L + 1:8}{r0 + 1:8}\\n")', '            print(f"{L + 1:8}", f"{r0 + 1:8}", file=f)',
+     "bigmat ascii string header printed with the default separator (fields shifted by one blank)"),
+    ("C04", "break", ["C04-R4"], F_, _INIT,
+     _INIT.replace("        self._rows4bigmat = 65536\n", "").replace("    def __del__(self):\n", "    @property\n    def _rows4bigmat(self):\n        return (1 << 16) + 1\n\n    def __del__(self):\n"),
+     "bigmat limit property one row too high"),
+]
